@@ -60,6 +60,9 @@ def run(ctx):
     r123(ctx, rep)
     r124(ctx, rep)
     r125(ctx, rep)
+    from .plumbing import check_plumbing
+    rep.rule('R12.6', 'view -> iterator plumbing of the row/field transforms: self.X reaches the parameter named X')
+    ctx.floor('plumbing_sites', check_plumbing(ctx, rep, 'R12.6', ['petl.transform.basics', 'petl.transform.headers', 'petl.transform.conversions', 'petl.transform.fills', 'petl.transform.maps', 'petl.transform.regex', 'petl.transform.unpacks', 'petl.util.base']), 90)
 
 
 # ------------------------------------------------------------------------ R12.1
